@@ -61,6 +61,15 @@ type skipAll struct {
 	Zzz int32 `nbt:"zzz-not-present"`
 }
 
+// fixed-size Go arrays as destinations (the declared length is peer-controlled, the array is not)
+type arrayFields struct {
+	A [4]int32    `nbt:"a"`
+	B [2]int64    `nbt:"b"`
+	C [3]string   `nbt:"c"`
+	D [4]uint8    `nbt:"d"`
+	E [2][2]int16 `nbt:"e"`
+}
+
 // nbtDecode runs one real decode entry point on input (document ++ whatever follows).
 func nbtDecode(fmtName string, input []byte, target string, class string) (ev nbtDecEv) {
 	ev = nbtDecEv{K: "dec", Fmt: fmtName, Input: ints(input), Target: target, Class: class, Tree: &nbtNode{}, Name: []int{}, Named: true}
@@ -98,6 +107,9 @@ func nbtDecode(fmtName string, input []byte, target string, class string) (ev nb
 				}
 			case "skip": // every entry is unknown to the struct: exercised through rawRead
 				var v skipAll
+				name, err = mk().Decode(&v)
+			case "arrays":
+				var v arrayFields
 				name, err = mk().Decode(&v)
 			case "raw":
 				var v nbt.RawMessage
@@ -1017,5 +1029,40 @@ func runC03(env *vk.Env) {
 		}
 	}
 	nbtJudge(env, tr, "B random documents mutated x decode entry points")
+	// fixed-size array destinations: every declared length around the array's own
+	tr = &vk.Trace{}
+	word := func(w int) []int { return make([]int, w) }
+	for _, n := range []int{0, 1, 2, 3, 4, 5, 6, 64} {
+		mkWords := func(w int) [][]int {
+			out := [][]int{}
+			for i := 0; i < n; i++ {
+				out = append(out, word(w))
+			}
+			return out
+		}
+		mkList := func(et int, elem func() *nbtNode) *nbtNode {
+			l := &nbtNode{T: 9, Et: et, Lst: []*nbtNode{}}
+			for i := 0; i < n; i++ {
+				l.Lst = append(l.Lst, elem())
+			}
+			return l
+		}
+		for key, node := range map[string]*nbtNode{
+			"a": {T: 11, Wds: mkWords(4)},
+			"b": {T: 12, Wds: mkWords(8)},
+			"d": {T: 7, Pat: make([]int, n)},
+			"c": mkList(8, func() *nbtNode { return &nbtNode{T: 8, Pat: []int{120}} }),
+			"e": mkList(9, func() *nbtNode {
+				return &nbtNode{T: 9, Et: 2, Lst: []*nbtNode{{T: 2, Pat: []int{0, 1}}, {T: 2, Pat: []int{0, 2}}, {T: 2, Pat: []int{0, 3}}}[:1+n%3]}
+			}),
+		} {
+			for _, key2 := range []string{key, "a"} { // also the wrong tag under the int-array field's name
+				doc := nbtDocBytes("network", nil, &nbtNode{T: 10, Ent: []nbtEntry{{K: ints([]byte(key2)), N: node}}})
+				tr.Add(c03Event(nbtDecode("network", doc, "arrays", fmt.Sprintf("array-target-len%d", n))))
+				env.Distinct(fmt.Sprintf("hostile/array-target/%s/len%d", key, n))
+			}
+		}
+	}
+	nbtJudge(env, tr, "B declared lengths around fixed-size Go array destinations")
 	env.Sample(map[string]any{"targets": nbtTargets})
 }
